@@ -11,7 +11,8 @@ b2 = np.array([0.5, -1.0])
 b3 = np.array([0.5, -1.0, 0.0])
 
 
-EXP_ATOMS = ['exp', 'log', 'pexp', 'plog', 'softplus', 'entropy', 'expsum', 'sumexp', 'sumlog', 'sumpexp', 'sumplog', 'sumexpb', 'sumlogb']
+EXP_ATOMS = ['exp', 'log', 'pexp', 'plog', 'softplus', 'entropy', 'expsum', 'sumexp', 'sumlog', 'sumpexp', 'sumplog', 'sumexpb', 'sumlogb',
+             'sumexp2s', 'sumexp2sY', 'sumexpnest']
 EXP_FAMILY = EXP_ATOMS + ['kldiv', 'expcone']      # members decided under the cone-term abstraction
 
 
@@ -39,6 +40,14 @@ def exp_desc(a, atom, form):
     elif atom == 'sumexpb':
         # (exp(x) + Y).sum() with x of shape (2,) broadcast against a (2, 2) constant: every entry of the sum counts
         h, curv = a.sumexp_bcast(x, np.array([[0.5, -1.0], [0.25, 1.5]])), 1
+    elif atom == 'sumexp2s':
+        # two-step sum exp(E).sum(axis=1).sum() of a 2-D argument
+        h, curv = a.sumexp_2step(np.array([[1.0], [0.5], [-1.0]]) * x + np.array([[0.0, 0.5], [-0.5, 0.25], [0.0, -0.25]])), 1
+    elif atom == 'sumexp2sY':
+        h, curv = a.sumexp_2step(np.array([[1.0], [0.5], [-1.0]]) * x, np.array([[0.5, -1.0], [0.25, 1.5], [0.0, 1.0]])), 1
+    elif atom == 'sumexpnest':
+        # (exp(x).sum() + Y).sum(): may be refused; if accepted it counts the scalar sum once per entry of Y
+        h, curv = a.sumexp_nested(x, np.array([0.5, -1.0])), 1
     elif atom == 'sumlogb':
         h, curv = a.sumlog_bcast(x + 2.5, np.array([[0.5, -1.0], [0.25, 1.5]])), -1
     elif atom == 'log':
@@ -59,7 +68,7 @@ def exp_desc(a, atom, form):
             a.st(a.le(2.0 * h + lin, u))      # 1/2 is exact in binary (1/2.5 is not: the abstraction needs equal terms)
             a.min(u)
         elif form == 'obj':
-            if atom in ('sumexp', 'sumpexp', 'sumexpb'):
+            if atom in ('sumexp', 'sumpexp', 'sumexpb', 'sumexp2s', 'sumexp2sY', 'sumexpnest'):
                 a.min(h - lin)
             else:
                 a.st(a.le(h, u))
@@ -162,7 +171,7 @@ def core_specs():
     for atom in EXP_ATOMS:
         for form in ['le', 'le_scaled', 'obj', 'le_affine_rhs', 'le_from_right']:
             S.append(dict(name='%s-%s' % (atom, form), atom=atom, form=form))
-            if atom in ('sumpexp', 'sumplog'):
+            if atom in ('sumpexp', 'sumplog', 'sumexpnest'):
                 # sums of perspective atoms have no compiled form: RSOME may refuse them (raise); if it accepts them
                 # the compiled program must mean the sum
                 S[-1]['may_raise'] = True
@@ -183,7 +192,7 @@ def core_specs():
     # the same descriptions through the dro front end (DecVar / DecAffine / DecConvex, dro.Model.do_math).  Members the
     # dro front end rejects loudly (summed exp/log, KL divergence, rsocone: TypeError / AttributeError) are not included.
     for sp in list(S):
-        if sp['atom'] in ('sumexp', 'sumlog', 'kldiv', 'rsocone', 'sumpexp', 'sumplog', 'sumexpb', 'sumlogb', 'latevar') \
+        if sp['atom'] in ('sumexp', 'sumlog', 'kldiv', 'rsocone', 'sumpexp', 'sumplog', 'sumexpb', 'sumlogb', 'latevar', 'sumexp2s', 'sumexp2sY', 'sumexpnest') \
                 or sp['form'].startswith('vector_y'):
             continue          # (expcone with an array as left argument: ValueError inside dro.ro_to_roc, loud)
         d = dict(sp)
